@@ -1528,22 +1528,26 @@ Proof.
   unfold Parser.add_run in E. cbn [pbind] in E. cbn [Z.eqb Pos.eqb orb] in E. rewrite Hu in E. discriminate.
 Qed.
 
-Lemma sim_loop fuel : forall st p wasq stF, minv st -> oinv (fun k => zmem k caps) st -> ms_unit st = None -> (exists cs, Sim cs st p) ->
-  scan_loop_full fuel tbm mco st p wasq = POk stF -> minv stF /\ oinv (fun k => zmem k caps) stF.
+Lemma sim_loop fuel : forall st p wasq stF, minv st -> oinv (fun k => zmem k caps) st -> ms_unit st = None -> einv st -> (exists cs, Sim cs st p) ->
+  scan_loop_full fuel tbm mco st p wasq = POk stF -> minv stF /\ oinv (fun k => zmem k caps) stF /\ einv stF /\ ms_ign stF = false.
 Proof.
-  induction fuel as [|f IH]; intros st p wasq stF Iv Ho Hu [cs SM] E; [discriminate|].
-  cbn [Parser.scan_loop_full] in E. destruct p as [|c p']; [inversion E; subst; auto|].
+  induction fuel as [|f IH]; intros st p wasq stF Iv Ho Hu He [cs SM] E; [discriminate|].
+  cbn [Parser.scan_loop_full] in E. destruct p as [|c p'].
+  { inversion E; subst. split; [exact Iv|]. split; [exact Ho|]. split; [exact He|].
+    destruct (ms_ign stF) eqn:IG; [|reflexivity]. destruct (sm_cond _ _ _ SM IG) as [H _]. discriminate. }
   destruct (scan_round tbm mco st (c :: p') wasq) as [[st' nxt]|e q| | |] eqn:ER; cbn [pbind] in E; try discriminate.
   pose proof (scan_round_ok is_word_char to_lower simple_fold participates cat_in cat_name tbm mco st (c :: p') wasq Iv Hu ltac:(discriminate)) as RR.
   rewrite ER in RR.
+  pose proof (sm_cond _ _ _ SM) as Hi.
+  destruct (scan_round_x (fun k => zmem k caps) tbm Hslot Hname is_word_char to_lower simple_fold participates cat_in cat_name mco st (c :: p') wasq st' nxt Hu He Hi ER) as [He' Hn].
   destruct (sim_round cs st (c :: p') wasq st' nxt Iv Hu SM ER) as [[q [-> [H63 U']]] | [HA NX]].
   - exfalso. destruct f as [|f']; [discriminate|]. cbn [Parser.scan_loop_full] in E.
     destruct q as [|c0 q']; [discriminate|].
     destruct (scan_round tbm mco st' (c0 :: q') false) as [[st2 nxt2]|e q2| | |] eqn:ER2; cbn [pbind] in E; try discriminate.
     exact (doomed_round st' (c0 :: q') false st2 nxt2 H63 U' ER2).
-  - pose proof (scan_round_o (fun k => zmem k caps) tbm Hslot Hname is_word_char to_lower simple_fold participates cat_in cat_name mco st (c :: p') wasq st' nxt Iv Ho Hu HA ER) as Ho'.
+  - pose proof (scan_round_o (fun k => zmem k caps) tbm Hslot Hname is_word_char to_lower simple_fold participates cat_in cat_name mco st (c :: p') wasq st' nxt Iv Ho Hu He Hi HA ER) as Ho'.
     destruct nxt as [[q wq]|].
-    + cbn [round_res] in RR. destruct RR as [R1 [R2 _]]. eapply IH; [exact R1 | exact Ho' | exact R2 | exact NX | exact E].
+    + cbn [round_res] in RR. destruct RR as [R1 [R2 _]]. eapply IH; [exact R1 | exact Ho' | exact R2 | exact He' | exact NX | exact E].
     + inversion E; subst. cbn [round_res] in RR. auto.
 Qed.
 
@@ -1602,12 +1606,13 @@ Proof.
     - intros H; discriminate.
     - apply cinv_init.
     - exists (S (length p)). exact EL. }
+  assert (E0 : einv st0) by (intros H; discriminate).
   destruct (sim_loop is_word_char to_lower simple_fold participates cat_in cat_name HW HD mco stF tb HF2 (t_caps tb) IN Hslot Hname
-              (S (length p)) st0 p false st I0 O0 eq_refl S0 ELP) as [IvF OF].
+              (S (length p)) st0 p false st I0 O0 eq_refl E0 S0 ELP) as [IvF [OF [EF GF]]].
   destruct (ms_stack st); [|discriminate].
   destruct (add_group cat_in st) as [st'| | | |] eqn:EG; cbn [pbind] in ES; try discriminate.
   destruct (ms_unit st') as [u|] eqn:EU; [|discriminate]. inversion ES; subst u.
-  exact (scan_end_o (fun k => zmem k (t_caps tb)) (captab_main tb) Hslot Hname is_word_char to_lower simple_fold participates cat_in cat_name st st' t (proj1 IvF) OF EG EU).
+  exact (scan_end_o (fun k => zmem k (t_caps tb)) (captab_main tb) Hslot Hname is_word_char to_lower simple_fold participates cat_in cat_name st st' t (proj1 IvF) OF EF GF EG EU).
 Qed.
 
 End Final.
